@@ -286,7 +286,8 @@ class TreeRef(Observer):
                 ctx.check("growth:rule", may, "round %d: leaf %s of depth %d expanded beyond the truncation depth ceil(%.6f)" % (t, label(c), h, self.hoo_x))
             else:
                 ctx.check("growth:rule", not must, "round %d: leaf %s of depth %d not expanded although depth <= ceil(%.6f)" % (t, label(c), h, self.hoo_x))
-            ctx.check("growth:depth_bound", self.part.get_depth() <= max(self.hoo_bounds) + 1, "tree depth %d exceeds the truncation bound + 1" % self.part.get_depth())
+            # one level below the bound - but never less than 1: the root is always split once at construction
+            ctx.check("growth:depth_bound", self.part.get_depth() <= max(max(self.hoo_bounds) + 1, 1), "tree depth %d exceeds the truncation bound + 1" % self.part.get_depth())
             ctx.count("sym:growth_rule_concrete")
             return
         xs = self.tau_candidates(c, t)
